@@ -199,6 +199,12 @@ func runC07(c *Ctx) {
 					continue
 				}
 			}
+			// … or a receive from a timer that is armed on every path to it (= C08.L): it waits for no worker either
+			if op.Kind == "recv" && !op.InSelect {
+				if rv, _, okT := armedTimerWait(f); okT && rv == op.Instr {
+					continue
+				}
+			}
 			bad = fmt.Sprintf("%s on %s at %s", op.Kind, PathOf(op.Chan), p.Pos(op.Instr.Pos()))
 		}
 		for _, w := range Calls(f, "(*sync.WaitGroup).Wait") {
